@@ -124,7 +124,8 @@ zix_expand_environment_strings(ZixAllocator* const allocator,
     }
   }
 
-  if (string[start]) {
+  if (string[start] || !out) {
+    // Copy the tail (also makes the result an empty string, not null, if empty)
     const char* const tail     = string + start;
     const size_t      tail_len = strlen(tail);
     out = append_str(allocator, &len, out, tail_len, tail);
